@@ -224,6 +224,19 @@ def _obj(cache, key, make):
     return cache[key]
 
 
+_SEEDSEQS = {}
+
+
+def _gen(seed):
+    """an identically seeded generator for every run: built from ONE SeedSequence object per seed value (kept for the duration of a
+    case), so that runs which are to be compared receive generators with the same seed material, the same state and the same
+    seed-sequence object - as a caller does who keeps `ss = SeedSequence(seed)` and hands out `default_rng(ss)`"""
+    ss = _SEEDSEQS.get(seed)
+    if ss is None:
+        ss = _SEEDSEQS[seed] = np.random.SeedSequence(seed)
+    return np.random.default_rng(ss)
+
+
 def run_op(case, seed, cache=None):
     """Run the operation with a generator / --seed derived from `seed`; returns a comparable canonical output.
     With `cache`, the configuration objects (generator, smoother, scorer, policy) are reused between calls."""
@@ -245,32 +258,32 @@ def run_op(case, seed, cache=None):
         if kind in ("gen", "smooth"):
             opobj = _obj(cache, "op", lambda: retro.build_operator(case["params"], [str(x) for x in screen.plate_names]))
             f_ = opobj.generate_plates if kind == "gen" else opobj.smooth_plates
-            return canon_screen(f_(screen, np.random.default_rng(seed)))
+            return canon_screen(f_(screen, _gen(seed)))
         if op == "cover":
             full = S.build_screen(dict(sc, observed=sorted({r["p"] for r in sc["rows"]})), treatment_mapping=tm, sample_mapping=sm)
             cov = _obj(cache, "cover", lambda: R.SparseCoverPlateGenerator(reveal_single_treatment_experiments=case["flag"]))
-            return canon_screen(cov.generate_and_unmask_initial_plate(full, np.random.default_rng(seed)))
+            return canon_screen(cov.generate_and_unmask_initial_plate(full, _gen(seed)))
         if kind == "holdout":
             f = R.create_plate_balanced_holdout_set_among_masked_plates if op.endswith("plate_balanced") else R.create_random_holdout
-            a, b = f(screen, case["fraction"], np.random.default_rng(seed))
+            a, b = f(screen, case["fraction"], _gen(seed))
             return [canon_screen(a), canon_screen(b)]
         n = case["n_thetas"]
         if op in ("scorer:Random", "dbal:subsampled", "scorer:GaussianDBAL", "score_chunk", "select:policy"):
             holder, dm = _thetas_and_dm(case, screen, n)
             plates = {int(p.plate_id): p for p in screen.plates if not bool(np.all(p.observation_mask))}
             if op == "scorer:Random":
-                return sorted((int(k), float(v)) for k, v in _obj(cache, "rand", RandomScorer).score(plates=plates, distance_matrix=dm, samples=holder, rng=np.random.default_rng(seed), progress_bar=False).items())
+                return sorted((int(k), float(v)) for k, v in _obj(cache, "rand", RandomScorer).score(plates=plates, distance_matrix=dm, samples=holder, rng=_gen(seed), progress_bar=False).items())
             if op == "dbal:subsampled":
                 r = np.random.default_rng(case["seed"] % 997)
                 preds = r.normal(size=(3, n, 4))
                 var = np.ones((3, n, 4))
-                return [float(x).hex() for x in gd.dbal_fast_gauss_scoring_vectorized(preds, var, dm.to_dense(), np.random.default_rng(seed), max_combos=5)]
+                return [float(x).hex() for x in gd.dbal_fast_gauss_scoring_vectorized(preds, var, dm.to_dense(), _gen(seed), max_combos=5)]
             if op == "scorer:GaussianDBAL":
-                return sorted((int(k), float(v).hex()) for k, v in _obj(cache, "dbal", lambda: gd.GaussianDBALScorer(max_chunk=2, max_triples=4)).score(plates=plates, distance_matrix=dm, samples=holder, rng=np.random.default_rng(seed), progress_bar=False).items())
+                return sorted((int(k), float(v).hex()) for k, v in _obj(cache, "dbal", lambda: gd.GaussianDBALScorer(max_chunk=2, max_triples=4)).score(plates=plates, distance_matrix=dm, samples=holder, rng=_gen(seed), progress_bar=False).items())
             if op == "score_chunk":
                 out = []
                 for c in range(2):
-                    h = score_chunk(scorer=_obj(cache, "dbal_chunk", lambda: gd.GaussianDBALScorer(max_triples=4)), thetas=holder, screen=screen, distance_matrix=dm, rng=np.random.default_rng(seed + c), n_chunks=2, chunk_index=c)
+                    h = score_chunk(scorer=_obj(cache, "dbal_chunk", lambda: gd.GaussianDBALScorer(max_triples=4)), thetas=holder, screen=screen, distance_matrix=dm, rng=_gen(seed + c), n_chunks=2, chunk_index=c)
                     out.append(sorted((int(p), float(s).hex()) for p, s in zip(h.plate_ids[: h.current_index], h.scores[: h.current_index])))
                 return out
             from batchie.policies.k_per_sample import KPerSamplePlatePolicy
@@ -278,7 +291,7 @@ def run_op(case, seed, cache=None):
             sh = ChunkedScoresHolder(len(plates))
             for pid in sorted(plates):
                 sh.add_score(pid, float((pid * 7919) % 13))
-            p = select_next_plate(scores=sh, screen=screen, policy=_obj(cache, "policy", lambda: KPerSamplePlatePolicy(case["k"])), batch_plate_ids=[], rng=np.random.default_rng(seed))
+            p = select_next_plate(scores=sh, screen=screen, policy=_obj(cache, "policy", lambda: KPerSamplePlatePolicy(case["k"])), batch_plate_ids=[], rng=_gen(seed))
             return None if p is None else int(p.plate_id)
         if kind == "sample":
             from batchie.models.sparse_combo import SparseDrugCombo
@@ -395,6 +408,11 @@ def _hashseed_sweep(case):
 
 
 def check_case(case):
+    _SEEDSEQS.clear()
+    return _check_case(case)
+
+
+def _check_case(case):
     op = case["op"]
     if op == "hashseed-sweep":
         return _hashseed_sweep(case)
